@@ -1,8 +1,10 @@
 package c07
 
 import (
+	"bytes"
 	"fmt"
 	"math"
+	"runtime"
 	"sort"
 	"strings"
 	"sync"
@@ -36,6 +38,11 @@ func TestCheck(t *testing.T) {
 		r.Require(r.Counter("sys_reports_sequential") >= 1000 && r.Counter("sys_reports_concurrent") >= 500, "too few system reports")
 		r.Require(r.Counter("sys_steps_overcommitted") >= 50 && r.Counter("sys_steps_near_limit") >= 50 && r.Counter("sys_limit_lowered") >= 20, "system histories did not reach the clamp region")
 		r.Require(r.Counter("sys_returns") >= 20 && r.Counter("sys_instances_reclaimed") >= 50, "too few reclaimed/returning instances")
+		// Histories abandoned because a cleanup step did not leave exactly the expected instances on record (0 on a tree whose
+		// reclamation works; that it works is C18's verdict, not C07's) are reported in the evidence; what is required is that
+		// enough reclaim steps WERE usable, so that the reclaim/return scenarios are not silently lost.
+		r.Set("histories_abandoned_fraction", float64(r.Counter("histories_abandoned_store_differs_from_model_after_cleanup"))/float64(r.Counter("sys_histories")+1))
+		r.Require(r.Counter("sys_reclaim_steps_usable") >= int64(r.N(40, 1000)), "too few reclaim steps left the store as the model expects (reclamation is broken: see C18); the reclaim scenarios of C07 were not exercised")
 		r.Require(r.Counter("sys_report_errors") == 0, "reports were refused by the server (harness/server set-up problem)")
 	})
 }
@@ -535,7 +542,10 @@ func (h *history) reportOne(w *gw) {
 }
 
 // consistency: the quota on record for the instance is the quota answered, and the allocated sum kept in the upstream
-// state condition (what the next report's arithmetic will use) is the sum of the quotas on record.
+// state condition (what the next report's arithmetic will use) is the sum of the quotas on record. This is judged ONLY
+// right after a report was answered, at quiescence (no cleanup goroutine pending, see leave): that is when
+// calculateUpstreamCondition has just recomputed the sum. A cleanup pass does not recompute it (the sum is then stale-high,
+// which only makes the server stricter) and is never followed by this check.
 func (h *history) consistency(after record, w *gw, rc reportRec, s *schema) {
 	if rc.Answer < 1 {
 		return
@@ -735,12 +745,67 @@ func (h *history) leave() {
 	w := h.gws[i]
 	h.gws = append(h.gws[:i], h.gws[i+1:]...)
 	h.heartbeatAll()
+	before := readRecord(h.srv, h.upstream)
 	h.srv.Handle.SetHeartbeat(w.id, time.Now().Add(-4*time.Second))
 	h.srv.Handle.CleanupTimeoutClient()
 	h.srv.Handle.CleanupUnknownCondition()
+	// The timeout pass deletes from a goroutine; nothing is judged before it has ended (found by name in the goroutine dump).
+	if !vkit.WaitFor(5*time.Second, noCleanupGoroutine) {
+		h.dead = true
+		h.r.Inconclusive("a cleanupTimeoutClient goroutine was still present 5 s after the pass")
+		return
+	}
 	h.gone = append(h.gone, w)
 	h.r.Count("sys_instances_reclaimed", 1)
 	h.logf("instance %s silent, cleanup passes run", w.id)
+	// Whether reclamation removes exactly the dead instance is C18's subject, not C07's. The model of this history (who
+	// holds which quota on record) is only valid if it did; otherwise the history is abandoned, not judged on a wrong model.
+	after := readRecord(h.srv, h.upstream)
+	same := len(after.per) == len(before.per) || len(after.per) == len(before.per)-1
+	if _, still := after.per[w.id]; still {
+		same = false
+	}
+	for id, m := range before.per {
+		if id == w.id {
+			continue
+		}
+		am, ok := after.per[id]
+		if !ok || len(am) != len(m) {
+			same = false
+			break
+		}
+		for k, v := range m {
+			if am[k] != v {
+				same = false
+			}
+		}
+	}
+	for id := range after.per {
+		if _, ok := before.per[id]; !ok {
+			same = false
+		}
+	}
+	if !same {
+		h.dead = true
+		h.r.Count("histories_abandoned_store_differs_from_model_after_cleanup", 1)
+		return
+	}
+	h.r.Count("sys_reclaim_steps_usable", 1)
+}
+
+var stackBuf = sync.Pool{New: func() interface{} { b := make([]byte, 1<<20); return &b }}
+
+// noCleanupGoroutine reports whether no goroutine started by rateLimiter.cleanupTimeoutClient exists in the process right now.
+func noCleanupGoroutine() bool {
+	bp := stackBuf.Get().(*[]byte)
+	defer stackBuf.Put(bp)
+	for {
+		n := runtime.Stack(*bp, true)
+		if n < len(*bp) {
+			return !bytes.Contains((*bp)[:n], []byte("cleanupTimeoutClient.func"))
+		}
+		*bp = make([]byte, 2*len(*bp))
+	}
 }
 
 // comeBack: an instance that was reclaimed while silent (e.g. cut off from the limiter for more than the heartbeat timeout;
